@@ -75,6 +75,12 @@ inductive Stmt where
   | raise
   deriving Repr
 
+/-- A block of statements. -/
+def blk : List Stmt → Stmt
+  | [] => .skip
+  | [a] => a
+  | a :: r => .seq a (blk r)
+
 /-- `x[i] := y` -/
 abbrev Stmt.setitem (x y : Var) : Stmt := .store x .elem y
 /-- `x.append(y)` -/
@@ -184,6 +190,22 @@ def WFVal (n : Nat) (v : Val) : Prop := ∀ id, v = .ref id → id < n
 def WFHeap (h : Heap) : Prop := ∀ id k, id < h.next → WFVal h.next (h.obj id k)
 def WFEnv (h : Heap) (e : Env) : Prop := ∀ x, WFVal h.next (e x)
 
+/-- A history: a sequence of top-level calls `(g, argument values)`, each started in the heap the
+previous one left; the arguments of a call must exist when it is made (they may be results of
+earlier calls). -/
+inductive Run (P : Program) : List (FunId × List Val) → Heap → Heap → Prop where
+  | nil {h} : Run P [] h h
+  | cons {g vals rest h h1 h2 fd o} : P.funs[g]? = some fd →
+      (∀ i, WFVal h.next (vals.getD i .scalar)) →
+      Exec P fd.body h (entryEnv fd.nparams vals) h1 o → Run P rest h1 h2 →
+      Run P ((g, vals) :: rest) h h2
+
+/-- Kind of function `g` (`helper` if there is no such function). -/
+def Program.kind (P : Program) (g : FunId) : Kind :=
+  match P.funs[g]? with
+  | some fd => fd.kind
+  | none => .helper
+
 /-! ## The analysis -/
 
 def AVal.le : AVal → AVal → Bool
@@ -226,18 +248,24 @@ def AList.join (l1 l2 : AList) : AList := List.zipWith AVal.join l1 l2
 structure AState where
   env : AList
   fld : AList
+  /-- `true`: no execution reaches this point (after `return` / `raise`) -/
+  dead : Bool
   deriving Repr
 
-def AState.le (s1 s2 : AState) : Bool := AList.le s1.env s2.env && AList.le s1.fld s2.fld
-def AState.join (s1 s2 : AState) : AState := ⟨AList.join s1.env s2.env, AList.join s1.fld s2.fld⟩
-def AState.degrade (s : AState) : AState := ⟨s.env.map AVal.degrade, s.fld.map AVal.degrade⟩
-def AState.setVar (s : AState) (x : Var) (a : AVal) : AState := ⟨s.env.set x a, s.fld⟩
-def AState.forget (s : AState) : AState := ⟨s.env, s.fld.map fun _ => .any⟩
+def AState.le (s1 s2 : AState) : Bool :=
+  s1.dead || (!s2.dead && AList.le s1.env s2.env && AList.le s1.fld s2.fld)
+def AState.join (s1 s2 : AState) : AState :=
+  if s1.dead then s2 else if s2.dead then s1
+  else ⟨AList.join s1.env s2.env, AList.join s1.fld s2.fld, false⟩
+def AState.degrade (s : AState) : AState := ⟨s.env.map AVal.degrade, s.fld.map AVal.degrade, s.dead⟩
+def AState.setVar (s : AState) (x : Var) (a : AVal) : AState := ⟨s.env.set x a, s.fld, s.dead⟩
+def AState.forget (s : AState) : AState := ⟨s.env, s.fld.map (fun _ => .any), s.dead⟩
+def AState.kill (s : AState) : AState := ⟨s.env, s.fld, true⟩
 
 /-- Effect of a permitted store through a variable of abstract value `ax` on the receiver's table. -/
 def AState.storeFld (s : AState) (ax : AVal) (sel : Sel) (ay : AVal) : AState :=
   match ax, sel with
-  | .param 0, .field f => ⟨s.env, s.fld.set f ay⟩
+  | .param 0, .field f => ⟨s.env, s.fld.set f ay, s.dead⟩
   | .param _, _ => s.forget
   | _, _ => s
 
@@ -319,12 +347,12 @@ def aexec (sums : List Summary) (me : Summary) : Stmt → AState → Option ASta
     | some s1, some s2 => some (s1.join s2)
     | _, _ => none
   | .while c, s => iter (aexec sums me c) loopFuel s
-  | .ret x, s => if (AList.get s.env x).le me.ret then some s else none
-  | .raise, s => some s
+  | .ret x, s => if (AList.get s.env x).le me.ret then some s.kill else none
+  | .raise, s => some s.kill
 
 def entryState (nfields : Nat) (fd : FunDecl) : AState :=
   ⟨(List.range fd.nparams).map AVal.param ++ List.replicate (fd.nvars - fd.nparams) .scal,
-   List.replicate nfields .any⟩
+   List.replicate nfields .any, false⟩
 
 /-- What the property demands of a function of each kind. -/
 def specOk (fd : FunDecl) : Bool :=
